@@ -411,6 +411,63 @@ static string step(const vector<string> &t) {
     return op == "write" ? fnv(out.str()) : hex(out.str());
   }
   if (op == "conf" && t.size() == 5) return "1";  // model-only question; the harness echoes the expected answer
+  if (op == "closed" && t.size() == 1) {
+    db->check_latest();
+    long dangling = 0, en = 0;
+    auto T = [&](int i) { if (i != 0 && db->_type_map.find(i) == db->_type_map.end()) ++dangling; };
+    auto F = [&](int i) { if (i != 0 && db->_function_map.find(i) == db->_function_map.end()) ++dangling; };
+    auto W = [&](int i) { if (i != 0 && db->_wrapper_map.find(i) == db->_wrapper_map.end()) ++dangling; };
+    auto E = [&](int i) { if (i != 0 && db->_element_map.find(i) == db->_element_map.end()) ++dangling; };
+    auto Q = [&](int i) { if (i != 0 && db->_make_seq_map.find(i) == db->_make_seq_map.end()) ++dangling; };
+    for (auto &p : db->_function_map) { const InterrogateFunction &f = *p.second; T(f._class); for (int w : f._c_wrappers) W(w); for (int w : f._python_wrappers) W(w); }
+    for (auto &p : db->_wrapper_map) { const InterrogateFunctionWrapper &w = p.second; F(w._function); T(w._return_type); F(w._return_value_destructor); for (auto &pp : w._parameters) T(pp._type); }
+    for (auto &p : db->_type_map) { const InterrogateType &ty = p.second; T(ty._outer_class); T(ty._wrapped_type); for (int x : ty._constructors) F(x); F(ty._destructor);
+      for (int x : ty._elements) E(x); for (int x : ty._methods) F(x); for (int x : ty._make_seqs) Q(x); for (int x : ty._casts) F(x);
+      for (auto &d : ty._derivations) { T(d._base); F(d._upcast); F(d._downcast); } for (int x : ty._nested_types) T(x); }
+    for (auto &p : db->_manifest_map) { T(p.second._type); F(p.second._getter); }
+    for (auto &p : db->_element_map) { const InterrogateElement &e = p.second; T(e._type); F(e._getter); F(e._setter); F(e._has_function); F(e._clear_function);
+      F(e._del_function); F(e._length_function); F(e._insert_function); F(e._getkey_function); }
+    for (auto &p : db->_make_seq_map) { F(p.second._length_getter); F(p.second._element_getter); }
+    for (int i : db->_global_types) if (db->_type_map.find(i) == db->_type_map.end()) ++en;
+    for (int i : db->_all_types) if (db->_type_map.find(i) == db->_type_map.end()) ++en;
+    for (int i : db->_global_functions) if (db->_function_map.find(i) == db->_function_map.end()) ++en;
+    for (int i : db->_all_functions) if (db->_function_map.find(i) == db->_function_map.end()) ++en;
+    for (int i : db->_global_manifests) if (db->_manifest_map.find(i) == db->_manifest_map.end()) ++en;
+    for (int i : db->_global_elements) if (db->_element_map.find(i) == db->_element_map.end()) ++en;
+    return "dangling=" + std::to_string(dangling) + " enum=" + std::to_string(en);
+  }
+  if (op == "consec" && t.size() == 2) {
+    db->check_latest();
+    int n = atoi(t[1].c_str());
+    for (auto &p : db->_wrapper_map) { if (p.first != n) return "0"; ++n; }
+    return "1";
+  }
+  if (op == "links" && t.size() == 1) {
+    db->check_latest();
+    bool wl = true, nl = true, un = true;
+    for (auto &p : db->_function_map) {
+      vector<int> ws = p.second->_c_wrappers; ws.insert(ws.end(), p.second->_python_wrappers.begin(), p.second->_python_wrappers.end());
+      for (int w : ws) { auto it = db->_wrapper_map.find(w); if (it == db->_wrapper_map.end() || it->second._function != p.first) wl = false; }
+    }
+    for (auto &p : db->_wrapper_map) {
+      int f = p.second._function; if (f == 0) continue;
+      auto it = db->_function_map.find(f);
+      if (it == db->_function_map.end()) { wl = false; continue; }
+      bool found = false;
+      for (int w : it->second->_c_wrappers) if (w == p.first) found = true;
+      for (int w : it->second->_python_wrappers) if (w == p.first) found = true;
+      if (!found) wl = false;
+    }
+    for (auto &p : db->_type_map) for (int n : p.second._nested_types) {
+      auto it = db->_type_map.find(n); if (it == db->_type_map.end() || it->second._outer_class != p.first) nl = false; }
+    std::map<string, int> seen;
+    for (auto &p : db->_wrapper_map) if (!p.second._unique_name.empty()) if (++seen[p.second._unique_name] > 1) un = false;
+    return string("wrapper=") + (wl ? "1" : "0") + " nesting=" + (nl ? "1" : "0") + " unique=" + (un ? "1" : "0");
+  }
+  if (op == "remap" && t.size() == 2) {
+    db->check_latest();
+    return std::to_string(db->remap_indices(atoi(t[1].c_str())));
+  }
   if (op == "sweepall" && t.size() == 3) { sweep_all(atoi(t[1].c_str()), atoi(t[2].c_str())); return "ok"; }
   return "bad-op";
 }
